@@ -238,3 +238,28 @@ record_contract("Perm.ltrmin", lambda a, b: a < b, lambda c, p: c.len(p))
 record_contract("Perm.ltrmax", lambda a, b: a > b, lambda c, p: c.int(-1))
 count_of("Perm.count_ltrmin", "Perm.ltrmin")
 count_of("Perm.count_ltrmax", "Perm.ltrmax")
+
+
+# ------------------------------------------------ sums over filters (FILTER-SUM / SUM-CONGRUENCE)
+@contract("Perm.depth", params={"self": "Perm"}, returns="int", props=P)
+class Depth:
+    # Petersen-Tenner depth: the sum of p[i] - i over the excedances i (p[i] > i)
+    def requires(c, self):
+        return c.is_perm(self)
+
+    def ensures(c, self, result):
+        return c.sum_eq(result, c.wsum("Perm.depth", 0, c.len(self), lambda i: c.ite(self[i] > i, self[i] - i, 0)))
+
+    modifies = ()
+
+
+@contract("Perm.major_index", params={"self": "Perm"}, returns="int", props=P)
+class MajorIndex:
+    # the sum of the (1-based) positions i + 1 of the descents i (p[i] > p[i+1])
+    def requires(c, self):
+        return c.is_perm(self)
+
+    def ensures(c, self, result):
+        return c.sum_eq(result, c.wsum("Perm.major_index", 0, c.len(self) - 1, lambda i: c.ite(self[i] > self[i + 1], i + 1, 0)))
+
+    modifies = ()
